@@ -102,3 +102,19 @@ Theorem unit_pinned_unsound :
   unit_parse_pinned [45;48;46;53;99;109]%N = Some (mkdec false 5 (-1), [45;99;109]%N) /\              (* "-0.5cm" -> 0.5 "-cm" *)
   unit_parse_pinned (unit_str_pinned (mkdec false 1 5) s_cm) = Some (mkdec false 15 0, [69;43;99;109]%N).   (* 1E+5 cm -> "1E+5cm" -> 15 "E+cm" *)
 Proof. split; reflexivity. Qed.
+
+(* ---- Unit.convert("px"): truncation toward zero of the exact quotient *)
+Theorem unit_convert_in_lemma d dpi px : unit_convert_px d s_in dpi = Some px -> (dexp d <= 0)%Z ->
+  px = Z.quot (dec_signed_coef d * dpi) (10 ^ (- dexp d)).
+Proof.
+  unfold unit_convert_px. change (str_eqb s_in s_in) with true. cbn iota. intros [= <-] He.
+  destruct (Z.leb_spec 0 (dexp d)); [|reflexivity].
+  assert (dexp d = 0)%Z by lia. rewrite H0. cbn [Z.opp Z.pow Z.pow_pos Pos.iter]. now rewrite Z.mul_1_r, Z.quot_1_r.
+Qed.
+Theorem unit_convert_cm_lemma d dpi px : unit_convert_px d s_cm dpi = Some px -> (dexp d <= 0)%Z ->
+  px = Z.quot (dec_signed_coef d * dpi * 100) (254 * 10 ^ (- dexp d)).
+Proof.
+  unfold unit_convert_px. change (str_eqb s_cm s_in) with false. change (str_eqb s_cm s_cm) with true. cbn iota. intros [= <-] He.
+  destruct (Z.leb_spec 0 (dexp d)); [|reflexivity].
+  assert (dexp d = 0)%Z by lia. rewrite H0. cbn [Z.opp Z.pow Z.pow_pos Pos.iter]. now rewrite !Z.mul_1_r.
+Qed.
